@@ -26,7 +26,7 @@ structure Sem (V : Type) where
   b : ℕ → ℕ → V               -- node, out channel: bias
   post : ℕ → ℕ → V → V        -- node, out channel: fused BatchNorm (any map)
   D : ℕ → ℕ → V → V           -- depthwise: node, channel
-  g : ℕ → V → V               -- element-wise / pooling / zero padding at a node
+  g : ℕ → ℕ → V → V           -- node, channel: element-wise op / pooling / zero padding / standalone per-channel affine map
   g2 : ℕ → V → V → V          -- residual sum / concatenation along a non-feature axis
   sp : ℕ → ℕ → V → V          -- flatten at a node: position, channel value ↦ that component
 
@@ -45,7 +45,7 @@ def pitStep (σ : Sem V) (ms : List (List Bool)) (inp : ℕ → List V) (vp : Li
   | .fixed s c _ _ =>
       maskedLayer (fun co => σ.post n co (σ.b n co + mix (σ.L n co) 0 (gv vp s))) 0 (List.replicate c true)
   | .fixedDw s _ => maskedDw (fun c v => σ.post n c (σ.b n c + σ.D n c v)) 0 (gm ms s) (gv vp s)
-  | .chan s => (gv vp s).map (σ.g n)
+  | .chan s => List.zipWith (σ.g n) (idxFrom 0 (gv vp s).length) (gv vp s)
   | .add a b => List.zipWith (σ.g2 n) (gv vp a) (gv vp b)
   | .tcat ss => List.zipWith (σ.g2 n) (gv vp (ss.headD 0)) (gv vp (ss.getD 1 0))
   | .cat ss => (ss.map (gv vp)).flatten
@@ -71,7 +71,7 @@ def expStep (σ : Sem V) (ms : List (List Bool)) (inp : ℕ → List V) (ve : Li
       (idxFrom 0 c).map fun co => σ.post n co (σ.b n co + mix (σ.L n co) 0 (gv ve s))
   | .fixedDw s _ =>
       List.zipWith (fun c v => σ.post n c (σ.b n c + σ.D n c v)) (idxFrom 0 (gv ve s).length) (gv ve s)
-  | .chan s => (gv ve s).map (σ.g n)
+  | .chan s => List.zipWith (σ.g n) (compress (gm ms s) (idxFrom 0 (gm ms s).length)) (gv ve s)
   | .add a b => List.zipWith (σ.g2 n) (gv ve a) (gv ve b)
   | .tcat ss => List.zipWith (σ.g2 n) (gv ve (ss.headD 0)) (gv ve (ss.getD 1 0))
   | .cat ss => (ss.map (gv ve)).flatten
@@ -91,7 +91,7 @@ def Coherent (σ : Sem V) (ms : List (List Bool)) (inp : ℕ → List V) (x : Op
   | .dw s _ => s < n ∧ gm ms n = gm ms s
   | .fixed s c _ _ => s < n ∧ gm ms n = List.replicate c true ∧ allTrue (gm ms s)
   | .fixedDw s _ => s < n ∧ gm ms n = gm ms s ∧ allTrue (gm ms s)
-  | .chan s => s < n ∧ gm ms n = gm ms s ∧ σ.g n 0 = 0
+  | .chan s => s < n ∧ gm ms n = gm ms s ∧ ∀ c, (gm ms s).getD c true = false → σ.g n c 0 = 0
   | .add a b => a < n ∧ b < n ∧ gm ms n = gm ms a ∧ gm ms a = gm ms b ∧ σ.g2 n 0 0 = 0
   | .tcat ss => ss.length = 2 ∧ ss.headD 0 < n ∧ ss.getD 1 0 < n ∧ gm ms n = gm ms (ss.headD 0) ∧
       gm ms (ss.headD 0) = gm ms (ss.getD 1 0) ∧ σ.g2 n 0 0 = 0
@@ -222,9 +222,10 @@ theorem step_inv (σ : Sem V) (ms : List (List Bool)) (inp : ℕ → List V) (vp
     obtain ⟨hs, hm, hg⟩ := hok
     obtain ⟨hlen, hdz, hve⟩ := hall s hs
     apply key
-    · simp only [pitStep]; rw [List.length_map, hm]; exact hlen
-    · simp only [pitStep]; rw [hm]; exact deadZero_map _ hg _ _ hdz
-    · simp only [expStep, pitStep]; rw [hve, hm, compress_map]
+    · simp only [pitStep]; rw [List.length_zipWith, idxFrom_length, Nat.min_self, hm]; exact hlen
+    · simp only [pitStep]; rw [hm]
+      exact deadZero_zipWithIdx (σ.g k) (gm ms s) (gv vp s) 0 hlen hdz (fun c hc => by simpa using hg c hc)
+    · simp only [expStep, pitStep]; rw [hve, hm, compress_zipWith, hlen]
   | add a b =>
     obtain ⟨ha, hb, hm, hab, hg⟩ := hok
     obtain ⟨hlena, hdza, hvea⟩ := hall a ha
